@@ -193,7 +193,7 @@ def observe(rep, ctx, o, state, obs, chain, slices=True):
             diffs = []
             if pr["pos"] != f["pos"]:
                 diffs.append("pos")
-            if pr["rev"] != f["rev"]:
+            if pr["rev"] != f["rev"] and f["pos"]:  # a feature of which the view retains nothing has no orientation to speak of
                 diffs.append("rev")
             if diffs:
                 rep.add(
